@@ -25,6 +25,9 @@ PENDING_REASON = "check not built yet in this session (see DESIGN.md section 4);
 
 
 def main() -> None:
+    for f in sorted((VERIF / "vp" / "manifest.d").glob("*.json")):
+        d = json.loads(f.read_text())
+        CHECKS[f.stem.upper()] = (d["technique"], d["text"], d["note"], d.get("design_ref", f"DESIGN.md 4/{f.stem.upper()}"))
     checks = []
     for pid in sorted(CHECKS):
         technique, text, note, ref = CHECKS[pid]
